@@ -160,10 +160,13 @@ class VF(object):
                 for key in x:
                     if k == key: return x[key]
                 raise KeyError('<symbolic key>')
-            raise Unsupported('%s[%s]' % (_type(x).__name__, _type(k).__name__))
+            if _isinstance(x, (str, bytes, list, tuple, bytearray)):
+                raise Unsupported('%s[%s]' % (_type(x).__name__, _type(k).__name__))
+            return x[k]
         if _type(k) is slice and not _isinstance(x, Proxy) and (
                 _isinstance(k.start, Proxy) or _isinstance(k.stop, Proxy) or _isinstance(k.step, Proxy)):
-            raise Unsupported('%s[symbolic slice]' % _type(x).__name__)
+            if _isinstance(x, (str, bytes, list, tuple, bytearray)):
+                raise Unsupported('%s[symbolic slice]' % _type(x).__name__)
         return x[k]
 
 
